@@ -46,8 +46,12 @@ WellFormedSeg(seg) == IF IsIndexed(seg) THEN PlainName(SegName(seg)) /\ AllDigit
 WellFormedPath(key) == \A i \in DOMAIN SplitOn(key, 46) : WellFormedSeg(SplitOn(key, 46)[i])
 (* a key whose every segment is well formed or EMPTY (`a.`, `.a`, `a..b`): the empty name is an  *)
 (* ordinary member name, so the descent still says what the key addresses                        *)
+(* ... or `name[text]` whose index text is not a number (`tags[]`, `tags[first]`, `list[*]`):  *)
+(* there is no such element, the field is missing - never element 0, never the array itself     *)
+BadIndexSeg(seg) == IsIndexed(seg) /\ PlainName(SegName(seg)) /\ ~AllDigits(SegIdxText(seg))
+                    /\ \A i \in DOMAIN SegIdxText(seg) : SegIdxText(seg)[i] \notin {46, 91, 93}
 CheckablePath(key) == \A i \in DOMAIN SplitOn(key, 46) :
-                         SplitOn(key, 46)[i] = <<>> \/ WellFormedSeg(SplitOn(key, 46)[i])
+                         LET seg == SplitOn(key, 46)[i] IN seg = <<>> \/ WellFormedSeg(seg) \/ BadIndexSeg(seg)
 
 (* small decimal text -> Nat (indices in checked universes are < 10^4) *)
 RECURSIVE DigVal(_)
@@ -59,7 +63,8 @@ RECURSIVE Descend(_, _)
 Descend(cur, segs) ==
   IF segs = <<>> THEN cur
   ELSE LET seg == Head(segs) IN
-    IF IsIndexed(seg)
+    IF IsIndexed(seg) /\ ~AllDigits(SegIdxText(seg)) THEN NONE
+    ELSE IF IsIndexed(seg)
     THEN LET a == Member(cur, SegName(seg))
              i == DigVal(ToDigits(StripLead(SegIdxText(seg)))) IN
          IF a.t = "A" /\ Len(StripLead(SegIdxText(seg))) <= 4 /\ i + 1 <= Len(a.vs)
